@@ -108,10 +108,14 @@ pub fn exec(body: &str, emit: &mut dyn FnMut(&str)) {
         let r = p.wait_task_result(id, budget);
         (r.map(|x| x.map_err(|m| m.to_string())).map_err(|e| e.kind()), t0, Instant::now())
     });
-    if late { std::thread::sleep(Duration::from_millis(250)); }
+    // `late`: the pass runs only once the waiter has really given up (not after a fixed sleep: a loaded machine may
+    // delay the waiter's thread beyond any guess)
+    let mut waiter = Some(waiter);
+    let mut joined = None;
+    if late { joined = Some(waiter.take().unwrap().join().unwrap()); }
     let _ = pool.try_schedule_task();
     let done_at = Instant::now();
-    let (r, t0, t1) = waiter.join().unwrap();
+    let (r, t0, t1) = match joined { Some(x) => x, None => waiter.take().unwrap().join().unwrap() };
     verif::set_pause_hook(None);
     let res = match r {
         Ok(Ok(Some(v))) => format!("Ok({v})"),
